@@ -133,7 +133,7 @@ def run(ctx, known, built):
         "distinct_nontrivial": len(nontrivial),
         "rule": "one evaluation = one Font::load_requested_data call (and one run of the Coq model) on a generated "
                 "format-3 UFO: every (UFO, switch mask 0..63, filter shape) pristine and once more with every "
-                "un-requested file replaced by garbage or removed, and for a third of them once more with one requested file damaged (error variants must agree). Non-trivial = at least one file belongs to an "
+                "un-requested file replaced by garbage or removed and whole un-requested entries (data / images / layer directories, lib / groups / kerning / features files) replaced by a plain file, a directory, a dangling link, a link loop or a link to a file, and for a third of them once more with one requested file damaged (error variants must agree). Non-trivial = at least one file belongs to an "
                 "un-requested part; distinct by (UFO, mask, filter shape).",
         "exhaustive": True,
         "exhaustive_scope": "all 64 switch combinations x 7 filter shapes for every generated UFO",
@@ -145,6 +145,9 @@ def run(ctx, known, built):
             "corrupted_outcomes": dict(collections.Counter(r["corrupted"].split(" ")[0].strip("(") for r in rows)),
             "requested_file_damaged_outcomes": dict(collections.Counter(r["damaged"].split(" ")[0].strip("(") for r in rows if r["damaged"] != "-")),
             "unrequested_files_corrupted_total": sum(r["n_unrequested"] for r in rows),
+            "unrequested_entries_replaced": dict(collections.Counter(
+                k for r in rows for k in ("PlainFile", "Dangling", "Loop", "LinkToFile", "AsDirectory")
+                for _ in range(r.get("entry_damage", "").count(k)))),
         },
         "traces_validated_against_impl": len(lines),
     })
